@@ -10,7 +10,8 @@ connection that has just reached the threshold, without and with an earlier requ
 fires (or has fired) after its response was processed.  Engine S: the replacement task against the
 return of the last live request, against a borrow, and against the last live request timing out; a
 request's timer thread against the reactor processing the response to that very request, before and
-during a replacement.
+during a replacement; a borrower inside borrow_connection() (preempted at any line, or waiting for a
+slot) while the threshold is passed and the replacement runs to completion on other threads.
 """
 from vt import explore, sched
 from vt import poollib    # noqa: F401  (imported here so that forked workers inherit the loaded driver)
@@ -34,10 +35,16 @@ META = {
             'outstanding is taken from what the server received and answered, what was given up from the explorer\'s own timeout '
             'events).  In every state: a connection that was replaced and carries only orphaned streams is closed; once the threshold was '
             'reached, a later request was issued and no task is queued, the pool no longer uses that connection; a request issued after '
-            'the replacement completed is not sent on the old connection.  Engine S: 2-3 virtual threads (executor worker running _replace, '
+            'the replacement completed is not sent on the old connection; borrow_connection() never returns a stream of a connection '
+            'that was replaced and has been closed (judged at its return); a request is not refused (NoHostAvailable) while every '
+            'replaced connection is closed and the fresh one is open with free slots.  Engine S: 2-3 virtual threads (executor worker running _replace, '
             'reactor answering / timing out, client borrowing, a timer thread firing the client timeout of the request the reactor is '
             'answering -- followed single-threaded by two more requests being given up, a new request, the replacement and the answers to '
-            'the three live requests one by one; and the same race while the replacement task runs) with a scheduling point at every line '
+            'the three live requests one by one; and the same race while the replacement task runs; a borrower preempted anywhere inside '
+            'borrow_connection() -- or waiting there for a slot on a full connection -- while on other threads, as whole handlers in a '
+            'fixed order, the connection it has read goes over the threshold, a further request queues the replacement, the replacement '
+            'runs and the last live request on the old connection is answered or given up, before or after the replacement) '
+            'with a scheduling point at every line '
             'of every HostConnection method and at every lock/condition; all schedules within the preemption bound; close() hook '
             'throughout, the state clauses at the end after everything outstanding was answered; deadlock and livelock detection.',
     'note': 'Virtual server, clock, executor and connections as in DESIGN.md section 2.  Client timeouts may expire in any order, and a '
@@ -47,7 +54,8 @@ META = {
     'design_ref': 'C13',
 }
 
-CLAUSES = ['closed-with-live-requests', 'new-request-on-replaced-connection', 'old-connection-not-closed', 'not-replaced', 'deadlock']
+CLAUSES = ['closed-with-live-requests', 'new-request-on-replaced-connection', 'old-connection-not-closed', 'not-replaced', 'deadlock',
+           'request-refused-beside-fresh-connection']
 BASE = dict(prop='C13', clauses=CLAUSES, proto=4, max_in_flight=6, orphaned_threshold=2, n_req=5, max_fail=1)
 R = ('req',)
 TO01 = [('timeout', 0), ('timeout', 1)]
@@ -97,6 +105,29 @@ def s_configs(ctx):
         # the same race for q2 on a connection that is being replaced (q0, q1 given up; q3, q4, q5 live)
         ('timer-vs-response-vs-replace', dict(hc, stage=[R, R, R, R, R] + TO01 + [R], threads=['worker', 'reactor', 'timer'],
                                               answer_tags=[2], timer_tags=[2]), b),
+        # A borrower inside borrow_connection() while, on another thread, the connection it has read goes over the threshold (q0
+        # was given up before, now q1 is), a further request queues the replacement and goes to the old connection, and the
+        # replacement completes: the old connection is set aside and closed when that request is answered ...
+        ('borrow-vs-threshold-replace-return', dict(hc, stage=[R, R, ('timeout', 0)], threads=['client', 'script'],
+                                                    script=[('timeout', 1), R, T, ('resp-mine', 0)]), b),
+        # ... or that request is answered / given up first, and the replacement closes the old connection at once
+        ('borrow-vs-threshold-return-replace', dict(hc, stage=[R, R, ('timeout', 0)], threads=['client', 'script'],
+                                                    script=[('timeout', 1), R, ('resp-mine', 0), T]), b),
+        ('borrow-vs-threshold-orphan-replace', dict(hc, stage=[R, R, ('timeout', 0)], threads=['client', 'script'],
+                                                    script=[('timeout', 1), R, ('timeout-mine', 0), T]), b),
+        # the same with the host not convicted when a request fails on a closed connection
+        ('borrow-vs-threshold-replace-return-no-conviction', dict(hc, convict=False, stage=[R, R, ('timeout', 0)],
+                                                                  threads=['client', 'script'],
+                                                                  script=[('timeout', 1), R, T, ('resp-mine', 0)]), b),
+        # A borrower waiting for a slot on a full connection (3 slots) that was below the threshold when it arrived: all three
+        # requests are given up, a further request queues the replacement and waits as well, the replacement closes the old
+        # connection; the reactor answers whatever is live
+        ('waiter-vs-threshold-replace', dict(hc, max_in_flight=4, stage=[R, R, R], threads=['client', 'script', 'worker'],
+                                             script=[('timeout', 0), ('timeout', 1), ('timeout', 2), R]), b),
+        # ... two are given up; a third thread runs the replacement (the old connection is set aside) and then answers the third
+        ('waiter-vs-threshold-replace-return', dict(hc, max_in_flight=4, stage=[R, R, R], threads=['client', 'script', 'script'],
+                                                    script=[('timeout', 0), ('timeout', 1), R],
+                                                    script2=[('wait-task',), T, ('resp-tag', 2)]), b),
     ]
 
 
@@ -126,6 +157,10 @@ def run(ctx):
     ctx.assume('a reactor delivers bytes from one thread; timers fire on that thread (engine E, true of every shipped reactor) or, in '
                'the timer-vs-response harnesses of engine S, on a thread of their own')
     ctx.assume('the retried error is OVERLOADED with the retry policy answering RETRY (same host); other retryable errors take the same path')
+    ctx.assume('a borrower that is still waiting for a slot on a replaced connection that is not closed yet (a live request is '
+               'outstanding on it) may be refused when its borrow timeout expires: whether it should have moved is not judged')
+    ctx.assume('engine S, script threads: the handlers of several driver threads (timer, client, executor, reactor) run one after the '
+               'other in one fixed order on one virtual thread; the borrower is preempted at most `bound` times')
     ctx.assume('engine S preempts between source lines, not inside one (CPython hands the GIL over between bytecodes; see DESIGN 3.1)')
 
 
